@@ -18,6 +18,11 @@ ERRMSG = {'invalid role': 0, 'unreachable': 1, 'graph is empty': 2,
           'top is not set': 3, 'top is not a variable in the graph': 4}
 
 
+def model_arg(op):
+    """the model argument of the real call: None when the op omits it (the library's own default)"""
+    return py_model(op['model']) if op.get('model') is not None else None
+
+
 def _input(op):
     return op['lines'] if op.get('lines') is not None else op['s']
 
@@ -62,7 +67,107 @@ def graph_full(g):
             'reentrancies': [[k, v] for k, v in g.reentrancies().items()]}
 
 
+def cli_argv(model_spec, opts, tmpdir):
+    """argv for the real command, or None if the option set cannot be written on a command line"""
+    import os
+    argv = ['penman']
+    if model_spec == 'amr':
+        argv.append('--amr')
+    elif model_spec == 'noop':
+        argv.append('--noop')
+    elif isinstance(model_spec, dict):
+        if model_spec.get('noop'):
+            return None
+        from common import pat_regex
+        d = {'top_variable': model_spec.get('topVariable', 'top'), 'top_role': model_spec.get('topRole', ':TOP'),
+             'concept_role': model_spec.get('conceptRole', ':instance'),
+             'roles': {pat_regex(p): {} for p in model_spec.get('roles', [])},
+             'normalizations': dict((k, v) for k, v in model_spec.get('norm', [])),
+             'reifications': [[r, py_atom(c), s_, t] for r, c, s_, t in model_spec.get('reifs', [])]}
+        path = os.path.join(tmpdir, 'model.json')
+        json.dump(d, open(path, 'w'))
+        argv += ['--model', path]
+    if opts.get('check'):
+        argv.append('--check')
+    ind = opts.get('indent', -1)
+    if ind is None:
+        argv += ['--indent', 'no']
+    elif ind != -1:
+        argv += ['--indent', str(ind)]
+    if opts.get('compact'):
+        argv.append('--compact')
+    if opts.get('triples'):
+        argv.append('--triples')
+    if opts.get('makeVariables') is not None:
+        argv += ['--make-variables', fmt_string(opts['makeVariables'])]
+    inv = {'original': 'original', 'alphanumeric': 'alphanumeric', 'canonical': 'canonical', 'invertedLast': 'inverted-last'}
+    if opts.get('rearrange') is not None:
+        keys = [inv[k] for k in opts['rearrange']['keys']]
+        if opts['rearrange'].get('attributesFirst'):
+            keys.append('attributes-first')
+        if not keys:
+            return None
+        argv += ['--rearrange', ','.join(keys)]
+    if opts.get('reconfigure') is not None:
+        if not opts['reconfigure']:
+            return None
+        argv += ['--reconfigure', ','.join(inv[k] for k in opts['reconfigure'])]
+    for k, flag in (('canonicalizeRoles', '--canonicalize-roles'), ('reifyEdges', '--reify-edges'),
+                    ('dereifyEdges', '--dereify-edges'), ('reifyAttributes', '--reify-attributes'),
+                    ('indicateBranches', '--indicate-branches')):
+        if opts.get(k):
+            argv.append(flag)
+    return argv
+
+
+def run_main_cli(model_spec, opts, inputs):
+    """the real `main()` in-process: argparse, option decoding, model loading, file opening"""
+    import os
+    import shutil
+    import tempfile
+    tmpdir = tempfile.mkdtemp(prefix='penman_cli_')
+    old = (sys.argv, sys.stdin, sys.stdout)
+    out = io.StringIO()
+    try:
+        argv = cli_argv(model_spec, opts, tmpdir)
+        if argv is None:
+            return None
+        if len(inputs) == 1:
+            sys.stdin = io.StringIO(inputs[0], newline=None)
+        else:
+            for k, text in enumerate(inputs):
+                path = os.path.join(tmpdir, f'in{k}.txt')
+                with open(path, 'w', encoding='utf-8', newline='') as fh:
+                    fh.write(text)
+                argv.append(path)
+            sys.stdin = io.StringIO('')
+        sys.argv = argv
+        sys.stdout = out
+        try:
+            pmain.main()
+            code = {'ok': 0}
+        except SystemExit as e:
+            code = {'ok': e.code if isinstance(e.code, int) else (0 if e.code is None else 2)}
+        except Exception as e:  # noqa: BLE001
+            code = {'err': j_err(e)}
+    finally:
+        sys.argv, sys.stdin, sys.stdout = old
+        shutil.rmtree(tmpdir, ignore_errors=True)
+    return {'out': out.getvalue(), 'exit': code}
+
+
 def run_main(model_spec, opts, inputs):
+    """the real command: through `main()` whenever the options can be written on a command line
+    (PENMAN_VERIF_PROCESS_ONLY=1 or an inexpressible option set: `process()` wired as main() does)"""
+    import os
+    if not os.environ.get('PENMAN_VERIF_PROCESS_ONLY'):
+        r = run_main_cli(model_spec, opts, inputs)
+        if r is not None:
+            return r
+    return run_main_process(model_spec, opts, inputs)
+
+
+def run_main_process(model_spec, opts, inputs):
     """run the real `process` pipeline in-process exactly as `main()` wires it"""
     model = py_model(model_spec)
     normalize_options = {
@@ -156,13 +261,13 @@ def _run_real(op):
     if name == 'format_triples':
         return penman.format_triples([py_triple(t) for t in op['triples']], indent=op.get('indent', True))
     if name == 'interpret':
-        return res(lambda: layout.interpret(py_tree(op['tree']), py_model(op.get('model'))), j_graph)
+        return res(lambda: layout.interpret(py_tree(op['tree']), model_arg(op)), j_graph)
     if name == 'decode':
         m = py_model(op.get('model'))
         return res(lambda: layout.interpret(_parse._parse(_lexer.lex(_input(op), pattern=_lexer.PENMAN_RE)), m), j_graph)
     if name == 'configure':
         g = py_graph(op['graph'])
-        return res(lambda: layout.configure(g, top=op.get('top'), model=py_model(op.get('model'))), j_tree)
+        return res(lambda: layout.configure(g, top=op.get('top'), model=model_arg(op)), j_tree)
     if name == 'encode':
         g = py_graph(op['graph'])
         return res(lambda: penman.encode(g, top=op.get('top'), model=py_model(op.get('model')),
@@ -223,11 +328,11 @@ def _run_real(op):
         e = m.errors(py_graph(op['graph']))
         return [[None if k is None else j_triple(k), [ERRMSG[x] for x in v]] for k, v in e.items()]
     if name == 'canonicalize_roles':
-        return res(lambda: transform.canonicalize_roles(py_tree(op['tree']), py_model(op.get('model'))), j_tree)
+        return res(lambda: transform.canonicalize_roles(py_tree(op['tree']), model_arg(op)), j_tree)
     if name == 'reify_edges':
-        return res(lambda: transform.reify_edges(py_graph(op['graph']), py_model(op.get('model'))), j_graph)
+        return res(lambda: transform.reify_edges(py_graph(op['graph']), model_arg(op)), j_graph)
     if name == 'dereify_edges':
-        return res(lambda: transform.dereify_edges(py_graph(op['graph']), py_model(op.get('model'))), j_graph)
+        return res(lambda: transform.dereify_edges(py_graph(op['graph']), model_arg(op)), j_graph)
     if name == 'reify_attributes':
         return j_graph(transform.reify_attributes(py_graph(op['graph'])))
     if name == 'indicate_branches':
@@ -320,6 +425,25 @@ def _run_real(op):
                 return list(penman.iterdecode(op['lines'], model=m))
             return penman.loads(op['s'], model=m)
         return res(f, lambda gs: [j_graph(g) for g in gs])
+    if name == 'dump':
+        m = py_model(op.get('model'))
+        gs = [py_graph(g) for g in op['graphs']]
+
+        def f():
+            if op.get('container') == 'file':
+                import os
+                import tempfile
+                fd, path = tempfile.mkstemp(prefix='penman_dump_')
+                os.close(fd)
+                try:
+                    penman.dump(gs, path, model=m, indent=op.get('indent', -1), compact=op.get('compact', False), encoding='utf-8')
+                    return open(path, encoding='utf-8', newline='').read()
+                finally:
+                    os.remove(path)
+            buf = io.StringIO()
+            penman.dump(gs, buf, model=m, indent=op.get('indent', -1), compact=op.get('compact', False))
+            return buf.getvalue()
+        return res(f)
     if name == 'dumps':
         m = py_model(op.get('model'))
         return res(lambda: penman.dumps([py_graph(g) for g in op['graphs']], model=m, indent=op.get('indent', -1),
